@@ -47,7 +47,37 @@ KINDS = {
     "ints": ([("n", "int")], "int[]"),
     "nsum": ([("n", "int[]")], "int"),
     "smkd": ([("m", "string[]")], "Directory[]"),
+    "rcat": ([("r", "Rec")], "File"),
+    "rmk": ([("r", "Rec")], "QRec"),
+    "sfcat": ([("f", "SFile")], "File"),
+    "sfmk": ([("m", "string")], "SFileOut"),
+    "xn": ([("a", "string[]"), ("b", "string[]")], "File[][]"),
+    "xf": ([("a", "string[]"), ("b", "string[]")], "File[]"),
 }
+
+_UNIQ = [0]
+
+
+def _cwl_type(t):
+    """CWL type (JSON) of a generator type name; record schemas get fresh names."""
+    _UNIQ[0] += 1
+    if t == "Rec":
+        return {"type": "record", "name": f"Rec{_UNIQ[0]}", "fields": {"rf": "File", "rs": "string", "rn": "int"}}
+    if t == "QRec":
+        return {"type": "record", "name": f"QRec{_UNIQ[0]}", "fields": {"qs": "string", "qn": "int"}}
+    if t == "File[][]":
+        return {"type": "array", "items": {"type": "array", "items": "File"}}
+    return t
+
+
+def _cwl_param(t):
+    """input/output parameter object of a generator type name"""
+    if t == "SFile":
+        return {"type": "File", "secondaryFiles": [".idx"]}
+    if t == "SFileOut":
+        return {"type": "File", "secondaryFiles": [".bak"]}
+    return {"type": _cwl_type(t)}
+
 
 
 def _tool(kind, sname, dup=False):
@@ -91,6 +121,25 @@ def _tool(kind, sname, dup=False):
                     'printf "%s+\\n" "$1" > "$2/sub/a.txt"',
                     "$(inputs.m)", sname + "_dir"))
         t.update(inputs=ins, outputs={"o": {"type": "Directory", "outputBinding": {"glob": sname + "_dir"}}})
+    elif kind == "rcat":
+        t.update(sh('cat "$1"; printf "%s %s\\n" "$2" "$3"', "$(inputs.r.rf.path)", "$(inputs.r.rs)", "$(inputs.r.rn)"))
+        t.update(inputs={"r": _cwl_param("Rec")}, stdout=sname + ".txt", outputs={"o": "stdout"})
+    elif kind == "rmk":
+        t = {"class": "ExpressionTool", "cwlVersion": "v1.2", "requirements": {"InlineJavascriptRequirement": {}},
+             "inputs": {"r": _cwl_param("Rec")}, "outputs": {"o": _cwl_param("QRec")},
+             "expression": "${return {o: {qs: inputs.r.rs + '!', qn: inputs.r.rn * 0}};}"}
+    elif kind == "sfcat":
+        t.update(sh('cat "$1" "$1.idx"', "$(inputs.f.path)"))
+        t.update(inputs={"f": _cwl_param("SFile")}, stdout=sname + ".txt", outputs={"o": "stdout"})
+    elif kind == "sfmk":
+        t.update(sh('printf "%s\\n" "$1" > ' + sname + '.dat; printf "bak %s\\n" "$1" > ' + sname + ".dat.bak",
+                    "$(inputs.m)"))
+        t.update(inputs=ins, outputs={"o": {"type": "File", "secondaryFiles": [".bak"],
+                                            "outputBinding": {"glob": sname + ".dat"}}})
+    elif kind in ("xn", "xf"):
+        t.update(sh('printf "%s-%s\\n" "$1" "$2"', "$(inputs.a)", "$(inputs.b)"))
+        t.update(inputs={"a": "string", "b": "string"}, stdout="$(inputs.a)_$(inputs.b)_" + sname + ".txt",
+                 outputs={"o": "stdout"})
     elif kind == "smkd":
         # every scatter job writes rep/summary.txt and rep/details/summary.txt: same names, different content,
         # inside one tree and across the jobs
@@ -179,11 +228,13 @@ class C34(Prop):
                   "Gallina terms; the harness's computation of the run's input/output values (inputs from the case spec, "
                   "outputs from StreamFlow's printed result object and the files on disk; what a job consumed or produced is "
                   "known to the harness only when the source is a workflow input or a step output that is also a workflow "
-                  "output; nested scatter, secondaryFiles and record values are not generated and not checked.")
+                  "output. Records (File/string/int fields), Files with secondaryFiles (a Collection) and cross-product scatter "
+                  "over two inputs (a grid of jobs) are generated and judged; nested records, arrays of records and "
+                  "dotproduct over several inputs are not.")
     TECHNIQUE = ("verified checker (Coq soundness+completeness proof of crate_ok w.r.t. a declarative predicate) evaluated "
                  "with vm_compute on crates exported from real runs; independent Python oracle from the property text")
     RULE = ("cases are typed random workflow specs over step kinds cat/echo/num/flag/expr/len/words/ls/mkd/scat/secho/"
-            "split/join/idn/neg/ints/nsum/smkd (files vs literals incl. the falsy ones 0, false, \"\", zeros in arrays, scatter over File[] and string[], nested directories in and out, members with one basename and different content inside a tree and across scatter jobs, the same "
+            "split/join/idn/neg/ints/nsum/smkd/rcat/rmk/sfcat/sfmk/xn/xf (records, Files with secondaryFiles, nested and flat cross-product scatter over two inputs; files vs literals incl. the falsy ones 0, false, \"\", zeros in arrays, scatter over File[] and string[], nested directories in and out, members with one basename and different content inside a tree and across scatter jobs, the same "
             "file/content used for two inputs, step outputs consumed by later steps and/or exported, inputs passed "
             "straight to outputs, embedded vs external tool files, optional deletion of an input/output/intermediate "
             "file or directory member before export; one case per run has 11-13 steps s1..s13 sharing one tool file). Non-trivial = the run completed and the crate was exported. "
@@ -195,6 +246,9 @@ class C34(Prop):
     ASSUMPTIONS = ("run values are the workflow-level inputs (job file) and outputs (result object printed by `streamflow run`), "
                    "plus, per step job, the consumed and produced values whose source is a workflow input or an exported step output",
                    "references whose @id starts with http:// or https:// are web resources and need no entity in the graph",
+                   "a zip archive with two members of one name is not 'consistent' (which one is 'the' file of that name?): "
+                   "member names must be unique",
+                   "nested arrays are compared flattened (the exporter flattens them); record fields are compared as a set",
                    "a literal is represented by its Python str() or JSON text")
     MIN_JUDGED = 20        # floor on cases with an oracle verdict AND a Coq term (set per tier in gen)
     MAX_WORKERS = 8
@@ -230,6 +284,12 @@ class C34(Prop):
         if ty == "string[]":
             k = rng.choice([0, 1, 2, 3])
             return {"n": n, "t": ty, "v": [rng.choice(["alpha", "beta", "gamma", "x1", "q"]) + str(j) for j in range(k)]}
+        if ty == "Rec":
+            return {"n": n, "t": ty, "v": {"rf": {"name": f"rec{idx}.txt", "content": rng.choice(["rf\n", "hello\n", ""])},
+                                          "rs": rng.choice(self.WORDS), "rn": rng.choice([0, 3])}}
+        if ty == "SFile":
+            return {"n": n, "t": ty, "v": {"name": f"sf{idx}.txt", "content": rng.choice(["main\n", "hello\n"]),
+                                          "idx": rng.choice(["index\n", "main\n", ""])}}
         if ty == "int[]":
             return {"n": n, "t": ty, "v": rng.choice([[], [0], [0, 3, 0], [5, 7], [0, 0], [12]])}
         if ty == "File[]":
@@ -256,8 +316,8 @@ class C34(Prop):
 
     def _spec(self, rng):
         ninp = rng.randrange(1, 5)
-        types = ["File", "string", "int", "boolean", "Directory", "File[]", "string[]", "int[]"]
-        weights = [4, 3, 2, 2, 2, 2, 1, 1]
+        types = ["File", "string", "int", "boolean", "Directory", "File[]", "string[]", "int[]", "Rec", "SFile"]
+        weights = [4, 3, 2, 2, 2, 2, 2, 1, 1, 1]
         inputs, pool = [], []
         for i in range(ninp):
             inputs.append(self._mkinput(rng, rng.choices(types, weights)[0], i, pool))
@@ -312,8 +372,8 @@ class C34(Prop):
 
     def gen(self, rng, tier):
         n = {"quick": 24, "thorough": 160, "extended": 48}[tier]
-        if tier in ("quick", "thorough"):   # at least 60 % of the cases (12 corpus + n) must yield a judged crate
-            self.MIN_JUDGED = int(0.6 * (n + 12))
+        if tier in ("quick", "thorough"):   # at least 60 % of the cases (18 corpus + n) must yield a judged crate
+            self.MIN_JUDGED = int(0.6 * (n + 18))
         cases = []
         cases.append(self._many(rng))
         for _ in range(n - 1):
@@ -360,6 +420,26 @@ class C34(Prop):
                 job[n] = {"class": "Directory", "path": p}
                 values.append({"dir": "in", "param": n, "kind": "dir",
                                "files": [{"sha1": _sha1(b), "size": len(b)} for _, b in _tree_files(v["tree"])]})
+            elif ty == "Rec":
+                p = os.path.join(d, "data", v["rf"]["name"])
+                b = v["rf"]["content"].encode()
+                with open(p, "wb") as f:
+                    f.write(b)
+                job[n] = {"rf": {"class": "File", "path": p}, "rs": v["rs"], "rn": v["rn"]}
+                values.append({"dir": "in", "param": n, "kind": "record",
+                               "fields": [{"kind": "file", "sha1": _sha1(b), "size": len(b)},
+                                          {"kind": "lit", "alts": _lit_alts(v["rs"])},
+                                          {"kind": "lit", "alts": _lit_alts(v["rn"])}]})
+            elif ty == "SFile":
+                p = os.path.join(d, "data", v["name"])
+                b, bi = v["content"].encode(), v["idx"].encode()
+                with open(p, "wb") as f:
+                    f.write(b)
+                with open(p + ".idx", "wb") as f:
+                    f.write(bi)
+                job[n] = {"class": "File", "path": p}
+                values.append({"dir": "in", "param": n, "kind": "coll", "sha1": _sha1(b), "size": len(b),
+                               "secs": [{"sha1": _sha1(bi), "size": len(bi)}]})
             elif ty in ("string[]", "int[]"):
                 job[n] = v
                 values.append({"dir": "in", "param": n, "kind": "list",
@@ -369,8 +449,8 @@ class C34(Prop):
                 values.append({"dir": "in", "param": n, "kind": "lit", "alts": _lit_alts(v)})
         wf = {"cwlVersion": "v1.2", "class": "Workflow",
               "requirements": {"ScatterFeatureRequirement": {}, "InlineJavascriptRequirement": {}},
-              "inputs": {i["n"]: i["t"] for i in c["inputs"]},
-              "outputs": {o["n"]: {"type": o["t"], "outputSource": o["src"]} for o in c["outputs"]},
+              "inputs": {i["n"]: _cwl_param(i["t"]) for i in c["inputs"]},
+              "outputs": {o["n"]: {**_cwl_param(o["t"]), "outputSource": o["src"]} for o in c["outputs"]},
               "steps": {}}
         if c.get("ext"):
             os.makedirs(os.path.join(d, "tools"))
@@ -389,6 +469,9 @@ class C34(Prop):
                 step["scatter"] = "f"
             if st["k"] in ("secho", "smkd"):
                 step["scatter"] = "m"
+            if st["k"] in ("xn", "xf"):
+                step["scatter"] = ["a", "b"]
+                step["scatterMethod"] = "nested_crossproduct" if st["k"] == "xn" else "flat_crossproduct"
             wf["steps"][st["n"]] = step
         json.dump(wf, open(os.path.join(d, "wf.cwl"), "w"), indent=1)
         json.dump(job, open(os.path.join(d, "job.json"), "w"), indent=1)
@@ -423,15 +506,33 @@ class C34(Prop):
                     out.append({"sha1": _sha1(b), "size": len(b), "path": os.path.join(root, fn)})
             return out
 
+        def flat(l):
+            return [y for x in l for y in (flat(x) if isinstance(x, list) else [x])]
+
         if v is None:
             return None
+        if isinstance(v, dict) and v.get("class") == "File" and v.get("secondaryFiles"):
+            m = filev(v)
+            return {"dir": "out", "param": name, "kind": "coll", "sha1": m["sha1"], "size": m["size"], "path": m["path"],
+                    "secs": [{k: x for k, x in filev(sf).items() if k != "kind"} for sf in v["secondaryFiles"]]}
         if isinstance(v, dict) and v.get("class") == "File":
             return {"dir": "out", "param": name, **filev(v)}
+        if isinstance(v, dict) and "class" not in v:   # a record
+            fields = []
+            for k in v:
+                x = v[k]
+                if isinstance(x, dict) and x.get("class") == "File":
+                    fields.append(filev(x))
+                elif isinstance(x, (dict, list)) or x is None:
+                    return {"dir": "out", "param": name, "kind": "unsupported"}
+                else:
+                    fields.append({"kind": "lit", "alts": _lit_alts(x)})
+            return {"dir": "out", "param": name, "kind": "record", "fields": fields}
         if isinstance(v, dict) and v.get("class") == "Directory":
             return {"dir": "out", "param": name, "kind": "dir", "files": dirfiles(v), "path": v["path"]}
         if isinstance(v, list):
             items = []
-            for x in v:
+            for x in flat(v):   # the exporter flattens nested arrays
                 if isinstance(x, dict) and x.get("class") == "File":
                     items.append(filev(x))
                 elif isinstance(x, dict) and x.get("class") == "Directory":
@@ -514,6 +615,17 @@ class C34(Prop):
             consts = [(p_, val_of(src)) for p_, src in st["in"].items() if p_ != scattered]
             known = [v for _, v in consts if v is not None]
             closed = all(v is not None for _, v in consts)
+            if st["k"] in ("xn", "xf"):
+                la, lb = val_of(st["in"]["a"]), val_of(st["in"]["b"])
+                if la is None or lb is None:
+                    continue
+                na, nb = len(la["items"]), len(lb["items"])
+                outs = out["items"] if out and out["kind"] == "list" and len(out["items"]) == na * nb else None
+                jobs = [{"ins": [dict(la["items"][i_]), dict(lb["items"][j_])], "closed": True,
+                         "out": dict(outs[i_ * nb + j_]) if outs else None}
+                        for i_ in range(na) for j_ in range(nb)]
+                steps.append({"step": "wf.cwl#" + st["n"], "jobs": jobs})
+                continue
             if scattered is None:
                 jobs = [{"ins": known, "closed": closed, "out": out}]
             else:
@@ -680,6 +792,11 @@ def coq_value(v):
     if v["kind"] == "dir":
         fs = coq_list(["(" + coq_str(f["sha1"]) + ", " + coq_N(f["size"]) + ")" for f in v["files"]])
         return f"(VDir {fs})"
+    if v["kind"] == "record":
+        return f"(VRecord {coq_list([coq_item(i) for i in v['fields']])})"
+    if v["kind"] == "coll":
+        fs = coq_list(["(" + coq_str(f["sha1"]) + ", " + coq_N(f["size"]) + ")" for f in v["secs"]])
+        return f"(VColl {coq_str(v['sha1'])} {coq_N(v['size'])} {fs})"
     raise ValueError(v["kind"])
 
 
@@ -750,6 +867,11 @@ def oracle_crate(meta, archive, values, steps=()):
         for r in _refs(e):
             if not _is_url(r) and r not in seen:
                 return ("dangling-ref", f"{e['@id']!r} references {r!r}, which is not in the graph")
+    # -- the archive has one member per name
+    names = [n for n, _, _ in archive]
+    for n in names:
+        if names.count(n) > 1:
+            return ("entry-dup", f"archive member {n!r} occurs {names.count(n)} times")
     # -- every file it references is present in the archive with the recorded size and checksum
     for e in g:
         if "File" in _types(e):
@@ -874,6 +996,26 @@ def _val_ok(seen, archive, e, x, v):
             val = e["value"] if isinstance(e["value"], list) else [e["value"]]
             return len(val) == len(v["items"]) and all(_item_ok(seen, archive, j, it) for j, it in zip(val, v["items"]))
         return False
+    if v["kind"] == "record":
+        if "PropertyValue" in _types(e) and "value" in e:
+            els = e["value"] if isinstance(e["value"], list) else [e["value"]]
+            ids_ = [el.get("@id") if isinstance(el, dict) and isinstance(el.get("@id"), str) else None for el in els]
+
+            def icarried(y, it):
+                return y is not None and y in seen and _val_ok(seen, archive, seen[y], y, it)
+
+            return (all(any(icarried(y, it) for y in ids_) for it in v["fields"])
+                    and all(any(icarried(y, it) for it in v["fields"]) for y in ids_))
+        return False
+    if v["kind"] == "coll":
+        if "Collection" not in _types(e):
+            return False
+        me = e.get("mainEntity")
+        if not (isinstance(me, dict) and isinstance(me.get("@id"), str)
+                and _file_ok(seen, archive, me["@id"], v["sha1"], v["size"])):
+            return False
+        parts = _vrefs(e.get("hasPart", []))
+        return all(any(_file_ok(seen, archive, z, f["sha1"], f["size"]) for z in parts) for f in v["secs"])
     if v["kind"] == "dir":
         if "Dataset" in _types(e):
             reach = _reach(seen, x)
